@@ -66,6 +66,9 @@ type c13Ev struct {
 	WantK   int      `json:"wantk,omitempty"`
 	D       int      `json:"d,omitempty"` // tick
 	NutsNo  []int    `json:"nutsno,omitempty"` // sweep: labels of the did:nuts DIDs for which IsCommitted answered false
+	Opts    []string `json:"opts,omitempty"`   // do/createopt: the CreationOptions in order: "s:<name>" | "enc" | "legacy" | "unk"
+	U       string   `json:"u,omitempty"`      // do/createopt: the alias for the name Create makes up itself (uuid / did:nuts DID)
+	Pref    string   `json:"pref,omitempty"`   // cfg: SqlManager.PreferredOrder, comma separated ("" = nuts,web; "-" = empty)
 }
 
 // ---- fake network + fault injection ---------------------------------------------------------
@@ -176,6 +179,10 @@ func c13ErrClass(err error) string {
 		return "err:nosubject"
 	case errors.Is(err, errC13Injected):
 		return "err:injected"
+	case errors.Is(err, didsubject.ErrKeyAgreementNotSupported):
+		return "err:keyagreement"
+	case errors.Is(err, didsubject.ErrSubjectValidation):
+		return "err:validation"
 	case errors.Is(err, resolver.ErrDeactivated):
 		return "err:deactivated"
 	case errors.Is(err, resolver.ErrNotFound), errors.Is(err, gorm.ErrRecordNotFound):
@@ -200,6 +207,7 @@ type c13World struct {
 	ks      nutsCrypto.KeyStore
 	store   didstore.Store
 	methods []string
+	pref    []string
 	inj     *c13Inj
 	mgr     *didsubject.SqlManager
 	// canonical names
@@ -207,6 +215,7 @@ type c13World struct {
 	vmLabel  map[string]int
 	subjects map[string]bool
 	svcs     map[string]bool
+	optNames map[string]bool   // names handed in with a SubjectCreationOption (List may show them before an event names them)
 	alias    map[string]string // subject name used in the events -> real subject (Create with NutsLegacyNamingOption picks the name itself)
 	opCancel context.CancelFunc
 }
@@ -233,10 +242,21 @@ func (w *c13World) freshManagers() {
 			mm["web"] = &c13Deco{MethodManager: didweb.NewManager(c13Root, "iam", w.ks, w.db), name: "web", inj: w.inj}
 		}
 	}
-	w.mgr = didsubject.New(w.db, mm, w.ks, []string{"nuts", "web"})
+	w.mgr = didsubject.New(w.db, mm, w.ks, w.pref)
 }
 
-func (w *c13World) reset(methods []string) {
+func c13Pref(s string) []string {
+	switch s {
+	case "":
+		return []string{"nuts", "web"}
+	case "-":
+		return []string{}
+	}
+	return strings.Split(s, ",")
+}
+
+func (w *c13World) reset(methods []string, pref ...string) {
+	w.pref = c13Pref(strings.Join(pref, ","))
 	for _, tbl := range []string{"did_change_log", "did_document_to_service", "did_document_to_verification_method", "did_service",
 		"did_verification_method", "did_document_version", "did", "key_reference"} {
 		if err := w.db.Exec("DELETE FROM " + tbl).Error; err != nil {
@@ -245,7 +265,7 @@ func (w *c13World) reset(methods []string) {
 	}
 	w.methods = methods
 	w.didLabel, w.vmLabel = map[string]int{}, map[string]int{}
-	w.subjects, w.svcs, w.alias = map[string]bool{}, map[string]bool{}, map[string]string{}
+	w.subjects, w.svcs, w.alias, w.optNames = map[string]bool{}, map[string]bool{}, map[string]string{}, map[string]bool{}
 	w.freshManagers()
 }
 
@@ -321,7 +341,7 @@ func (w *c13World) observe(result string) string {
 		}
 	}
 	for s := range all {
-		if !known[s] {
+		if !known[s] && !w.optNames[s] {
 			listOK = "bad:unknown-subject"
 		}
 	}
@@ -408,7 +428,7 @@ func (w *c13World) serviceID(subject, label string) ssi.URI {
 func (w *c13World) run(ev c13Ev) (c13Ev, string) {
 	switch ev.Op {
 	case "cfg":
-		w.reset(ev.Methods)
+		w.reset(ev.Methods, ev.Pref)
 		return ev, w.observe("cfg")
 	case "tick":
 		if err := w.db.Exec("UPDATE did_document_version SET updated_at = updated_at - ?, created_at = created_at - ?", ev.D, ev.D).Error; err != nil {
@@ -447,7 +467,11 @@ func (w *c13World) run(ev c13Ev) (c13Ev, string) {
 			want = "none"
 		}
 		ev.Want, ev.WantK = want, wantK
-		w.subjects[ev.Subj] = true
+		if ev.Kind == "createopt" {
+			ev.Subj = ev.U // completed below: the event-level name of the subject that was created
+		} else {
+			w.subjects[ev.Subj] = true
+		}
 		if ev.A != "" {
 			w.svcs[ev.A] = true
 		}
@@ -495,6 +519,46 @@ func (w *c13World) run(ev c13Ev) (c13Ev, string) {
 						extra = ":returned-did-not-under-returned-subject"
 					}
 				}
+			case "createopt":
+				// Create with a LIST of options, as the API hands it in
+				opts := didsubject.DefaultCreationOptions()
+				for _, o := range ev.Opts {
+					switch {
+					case o == "enc":
+						opts = opts.With(didsubject.EncryptionKeyCreationOption{})
+					case o == "legacy":
+						opts = opts.With(didsubject.NutsLegacyNamingOption{})
+					case strings.HasPrefix(o, "s:"):
+						w.optNames[w.real(o[2:])] = true
+						opts = opts.With(didsubject.SubjectCreationOption{Subject: w.real(o[2:])})
+					default:
+						opts = opts.With(didsubject.SkipAssertionKeyCreationOption{}) // a type the option switch does not know
+					}
+				}
+				docs, name, cerr := w.mgr.Create(opCtx, opts)
+				err = cerr
+				if cerr == nil {
+					for _, o := range ev.Opts {
+						if strings.HasPrefix(o, "s:") && w.real(o[2:]) == name {
+							ev.Subj = o[2:]
+						}
+					}
+					if ev.Subj == ev.U {
+						w.alias[ev.U] = name
+					}
+					listed, lerr := w.mgr.ListDIDs(w.ctx, name)
+					if lerr != nil || len(listed) != len(docs) {
+						extra = ":returned-did-not-under-returned-subject"
+					}
+					// the documents come back in the order ListDIDs answers (sortDIDDocumentsByMethod vs sortDIDsByMethod)
+					for i := range docs {
+						if i < len(listed) && docs[i].ID.String() != listed[i].String() {
+							extra = ":returned-documents-not-in-listdids-order"
+						}
+					}
+				}
+			case "addkeyka":
+				_, err = w.mgr.AddVerificationMethod(opCtx, subj, orm.AssertionKeyUsage()|orm.EncryptionKeyUsage())
 			case "addsvc":
 				_, err = w.mgr.CreateService(opCtx, subj, c13Service(ev.A))
 			case "updsvc":
@@ -509,6 +573,9 @@ func (w *c13World) run(ev c13Ev) (c13Ev, string) {
 				w.t.Fatalf("unknown kind %q", ev.Kind)
 			}
 		}()
+		if ev.Kind == "createopt" {
+			w.subjects[ev.Subj] = true
+		}
 		ev.Order = append([]string{}, w.inj.order...)
 		ev.Fault, ev.K = "none", 0
 		if w.inj.fired {
@@ -837,6 +904,7 @@ func TestVerifC13(t *testing.T) {
 		legacy := []c13Ev{do("createleg", "L", "", ""), do("addsvc", "L", "A", ""), do("addkey", "L", "", ""), do("deact", "L", "", "")}
 		exec(c13Variants(fmt.Sprintf("l%d", round), legacy, m, rng, false)[0])
 	}
+	c13RequestWorlds(rng, thorough, exec)
 	for i, seq := range fixed {
 		for c, m := range c13Configs {
 			// every cut with both methods; on the single-method nodes every cut of the create, a third of the cuts of the longer ones (quick)
@@ -856,6 +924,90 @@ func TestVerifC13(t *testing.T) {
 		for _, v := range c13Variants(fmt.Sprintf("r%d", i), seq, m, rng, thorough) {
 			exec(v)
 		}
+	}
+}
+
+// ---- request layer: option lists, key-agreement refusals, preferred order ------------------------------------------------
+
+func copt(u string, opts ...string) c13Ev {
+	return c13Ev{Op: "do", Kind: "createopt", U: u, Subj: u, Opts: opts, Fault: "none"}
+}
+
+var c13Prefs = []string{"", "web,nuts", "-", "web", "nuts", "key,web", "nuts,web,nuts", "web,nuts,web,key"}
+
+// c13RequestWorlds: `Create` with every shape of option list (names that exist / are free / are ill-formed, v1 naming before and
+// after a name, the encryption-key option, an unknown option, repeats), `AddVerificationMethod` with a key-agreement usage, on
+// every configuration and with varying `PreferredOrder`; a refused request must leave everything as it was.
+func c13RequestWorlds(rng *rand.Rand, thorough bool, exec func([]c13Ev)) {
+	bad := []string{"s:", "s:a:b", "s:did:nuts:x", "s:a b", "s:a\n", "s:\u00e9", "s:a/b", "s:a+b", "s:a,b", "s:@", "s:[", "s:a~", "s:^", "s:`", "s:{", "s:a|b"}
+	good := []string{"s:s1", "s:s2", "s:s3", "s:A.b_c-9", "s:-", "s:_", "s:.", "s:Zz09", "s:azAZ"}
+	n := 0
+	world := func(methods []string, pref string, evs []c13Ev) {
+		n++
+		evs = append([]c13Ev{{Op: "cfg", Methods: methods, Pref: pref, Tag: fmt.Sprintf("req:w%d", n)}}, evs...)
+		evs = append(evs, c13Ev{Op: "tick", D: 70}, c13Ev{Op: "sweep"})
+		exec(evs)
+	}
+	q := 0
+	u := func() string { q++; return fmt.Sprintf("q%d", q) }
+	for ci, m := range [][]string{{"nuts", "web"}, {"web", "nuts"}, {"nuts"}, {"web"}} {
+		pref := c13Prefs[(ci*3)%len(c13Prefs)]
+		fixed := []c13Ev{
+			copt(u(), "s:s1"), copt(u(), "s:s1"), copt(u(), "s:s1", "legacy"), copt(u(), "legacy", "s:s2"), copt(u(), "s:s2"),
+			do("addkeyka", "s1", "", ""), do("addsvc", "s1", "A", ""), do("addkeyka", "nobody", "", ""),
+			copt(u(), "enc"), copt(u(), "s:s3", "enc"), copt(u(), "enc", "s:s1"), copt(u(), "unk"), copt(u(), "s:s3", "unk"), copt(u(), "unk", "s:s3"),
+			copt(u(), "s:s3", "s:s4"), copt(u(), "s:s3"), copt(u(), "s:s4"), copt(u(), "s:s5", "s:a:b"), copt(u(), "s:a:b", "s:s5"), copt(u(), "s:s5"),
+			copt(u()), copt(u(), "legacy"), copt(u(), "legacy", "legacy", "enc"),
+			do("addkey", "s1", "", ""), do("addkeyka", "s1", "", ""), do("deact", "s2", "", ""), do("addkeyka", "s2", "", ""),
+		}
+		world(m, pref, fixed)
+		// ill-formed and well-formed names, one world
+		var names []c13Ev
+		for _, b := range bad {
+			names = append(names, copt(u(), b))
+		}
+		for _, g := range good {
+			names = append(names, copt(u(), g))
+		}
+		world(m, c13Prefs[(ci*3+1)%len(c13Prefs)], names)
+		// a did:nuts Commit failure / a stop on a Create with options: nothing stays, the name can be taken afterwards
+		for _, f := range []struct {
+			f string
+			k int
+		}{{"fail", 0}, {"stop", 0}, {"stop", 1}, {"stop", 2}, {"logerr", 0}, {"logstop", 1}} {
+			if !thorough && rng.Intn(3) != 0 {
+				continue
+			}
+			e := copt(u(), "s:s1")
+			e.Fault, e.K = f.f, f.k
+			world(m, c13Prefs[rng.Intn(len(c13Prefs))], []c13Ev{do("addsvc", "s1", "A", ""), e, {Op: "tick", D: 70}, {Op: "sweep"}, copt(u(), "s:s1"), do("addkeyka", "s1", "", ""), do("addsvc", "s1", "B", "")})
+		}
+	}
+	rounds := 6
+	if thorough {
+		rounds = 60
+	}
+	pool := append(append([]string{"enc", "legacy", "unk", "legacy", "s:s1", "s:s2"}, good...), bad[:6]...)
+	for r := 0; r < rounds; r++ {
+		m := [][]string{{"nuts", "web"}, {"web", "nuts"}, {"nuts"}, {"web"}}[rng.Intn(4)]
+		var evs []c13Ev
+		for i := 0; i < 8+rng.Intn(8); i++ {
+			switch p := rng.Intn(10); {
+			case p < 6:
+				var opts []string
+				for k := rng.Intn(4); k > 0; k-- {
+					opts = append(opts, pool[rng.Intn(len(pool))])
+				}
+				evs = append(evs, copt(u(), opts...))
+			case p < 8:
+				evs = append(evs, do("addkeyka", []string{"s1", "s2", "s3"}[rng.Intn(3)], "", ""))
+			case p < 9:
+				evs = append(evs, do("addsvc", []string{"s1", "s2"}[rng.Intn(2)], []string{"A", "B"}[rng.Intn(2)], ""))
+			default:
+				evs = append(evs, do("addkey", []string{"s1", "s2"}[rng.Intn(2)], "", ""))
+			}
+		}
+		world(m, c13Prefs[rng.Intn(len(c13Prefs))], evs)
 	}
 }
 
